@@ -8,12 +8,12 @@ ROOT = os.path.dirname(os.path.dirname(os.path.abspath(__file__)))
 CHECKS = {
     "C11": ("SCHED", "model_checking",
             "stateless exploration of all interleavings of the real code at hook granularity under a controlled scheduler with preemption bounding; brute-force linearizability check per execution",
-            "Every schedule with at most 2 (quick) / 3 (thorough) preemptions of 2-3 tasks x 1-2 operations from {get, contains, put, put_with_ttl(0), remove, clear} on the same and on different keys on the real MemoryCache (non-evicting and capacity-2 configurations), DiskCache (both layouts, incl. keys that used to share a temp file), MultiLayerCacheImpl [Memory, Disk], and of write/read/remove/query on one DynamicContainer; tasks run on real threads, the repository's vp_sched! points hand control to the explorer. Per execution: no operation fails unless a concurrent operation of another task touches the same key; no torn or foreign value; the call/return history is linearizable w.r.t. the map (set) specification by brute force over all orders consistent with real time; after join the reported entry count and usage equal the retrievable contents. The first schedule of every body is replayed twice (determinism), every violating schedule once more.",
+            "Every schedule with at most 2 (quick) / 3 (thorough) preemptions of 2-3 tasks x 1-2 operations from {get, contains, put, put_with_ttl(0), remove, clear} on the same and on different keys on the real MemoryCache (non-evicting; evicting under LRU and FIFO with an entry limit of 2 and with a byte limit, incl. replacing puts of another size), DiskCache (both layouts, incl. keys that used to share a temp file), MultiLayerCacheImpl [Memory, Disk], and of write/read/remove/query on one DynamicContainer; tasks run on real threads, the repository's vp_sched! points hand control to the explorer. Per execution: no operation fails unless a concurrent operation of another task touches the same key; no torn or foreign value; the call/return history is linearizable w.r.t. the map (set) specification by brute force over all orders consistent with real time; after join the reported entry count and usage equal the retrievable contents. The first schedule of every body is replayed twice (determinism), every violating schedule once more.",
             "Trusted: sequential consistency at hook granularity (Relaxed counters not explored under weak memory); the std RwLocks of cascette-cache are wrapped (acquire/release are scheduling points, blocked acquires are modelled, all-blocked = deadlock); hooks never sit inside guard scopes of unwrapped locks (DashMap shards, parking_lot); layered gets may miss (lenient). Hooks: cargo feature verif-hooks (commits 02e2645, 40a9c77, 0da5b95).",
             "DESIGN.md §2.2, §4 C11"),
     "C14": ("SEQ (outcome trees)", "model_checking",
             "exhaustive enumeration of the complete outcome tree of every policy on a grid, each path one run of the real RetryPolicy::execute under tokio's paused clock",
-            "For every policy on the grid max_attempts 0..=5 x initial back-off {0,1 ms,100 ms,20 s} x max back-off {0,1 ms,10 s} x multipliers {0,0.5,1,2,10,1e308,inf,NaN,-1} x jitter on/off plus every distinct policy RetryPolicy::from_env produces from the environment-string grid: the complete tree of outcome sequences over {Ok, retryable, rate-limited with hint none/0 s/5 s, non-retryable} (a path ends where the policy stops) is executed on the real code with a scripted closure that records virtual time. Oracle: invocations <= max_attempts+1; stop at first Ok / first non-retryable and return exactly that; gap >= hint and <= 1.3 x hint with a hint, otherwise <= 1.3 x max_backoff and within [d,1.3d] for sane policies; no panic; finite virtual time.",
+            "For every policy on the grid max_attempts 0..=5 x initial back-off {0,1 ms,100 ms,20 s} x max back-off {0,1 ms,10 s} x multipliers {0,0.5,1,2,10,1e308,inf,NaN,-1} x jitter on/off plus every distinct policy RetryPolicy::from_env produces from the environment-string grid: the complete tree of outcome sequences over {Ok, retryable, rate-limited with hint none/0 s/5 s, non-retryable} (a path ends where the policy stops) is executed on the real code with a scripted closure that records virtual time. Oracle: invocations <= max_attempts+1; stop at first Ok / first non-retryable and return exactly that; gap >= hint and <= 1.3 x hint with a hint, otherwise <= 1.3 x max_backoff and within [d,1.3d] for sane policies; no panic; finite virtual time. CDN part (NET, real time): the complete tree of server answer sequences {200, 304, 404, 429 without / with integer / with junk Retry-After, 503; thorough + 403, 500, Retry-After 0} of depth 4 is served by a scripted loopback endpoint to the real CdnClient::download and download_archive_index; request count, result class and lower bounds on the gaps between request arrivals are judged (upper bounds are the paused-clock part's).",
             "Trusted: tokio's paused clock is exact for pure timers (+1 ms granularity allowance); jitter judged through intervals only. Waits beyond 200 virtual days are judged by their lower bound; policies with an astronomical initial back-off are parsed but not executed.",
             "DESIGN.md §4 C14"),
     "C20": ("ENUM", "exploration",
@@ -23,7 +23,7 @@ CHECKS = {
             "DESIGN.md §4 C20"),
     "C02": ("ENUM (isolated workers)", "exploration",
             "deviation-bounded exhaustive mutation of fixtures and builder-made artifacts per parser target inside isolated worker processes with a counting allocator",
-            "For each of 29 parser/decoder targets and every seed (repository fixtures, builder-made artifacts, minimal text documents): every byte substitution (all 255 values for seeds up to 4 KiB, boundary values otherwise), every truncation length, extensions, every 2/3/4/5/8-byte window near start/end set to boundary values in both endiannesses, (thorough) every pair of boundary windows in headers/footers, every short string over the grammar tokens of the text formats. Each case runs in a worker process: a panic, an abort (incl. a single allocation request beyond 1 GiB + 64 MiB, refused by the counting allocator), 5 s of CPU time without returning, or a disproportionate allocation in a non-decompressing parser is a violation attributed to exactly that case.",
+            "For each of 29 parser/decoder targets and every seed (repository fixtures, builder-made artifacts, minimal text documents): every byte substitution (all 255 values for seeds up to 4 KiB, boundary values otherwise), every truncation length, extensions, every 2/3/4/5/8-byte window near start/end set to boundary values in both endiannesses, every *stride* case (the same 2/4-byte field of two — thorough: three — consecutive records at strides 4..40 set to the same boundary value), (thorough) every pair of boundary windows in headers/footers, every short string over the grammar tokens of the text formats (incl. a numeric boundary token), every token sequence of length <= 2 repeated 2 000 and 100 000 times (unbounded recursion, quadratic loops), every byte of a text seed replaced by a 2/3/4-byte UTF-8 character, a builder-made TVFS with 200 000 nested folder nodes. Each case runs in a worker process: a panic, an abort (incl. a single allocation request beyond 1 GiB + 64 MiB, refused by the counting allocator), 5 s of CPU time without returning, or a disproportionate allocation in a non-decompressing parser is a violation attributed to exactly that case.",
             "Trusted: worker isolation and the allocator's limits. Inputs more than one (thorough: two header/footer) deviations away from every seed are not reached; overflow checks are on (as in cargo test).",
             "DESIGN.md §4 C02"),
     "C08": ("ENUM (isolated workers)", "exploration",
@@ -38,7 +38,7 @@ CHECKS = {
             "DESIGN.md §4 C03"),
     "C16": ("ENUM", "exploration",
             "exhaustive enumeration of (old,new) pairs over a 2-letter alphabet under four encodings x builders x block sizes x patchers, and of all small control blocks; judged against the new file, the length law and an independent bspatch",
-            "Every (old,new) in {a,b}^<=6 (thorough <=8) as single bytes, 4-byte blocks and 256-byte blocks x simple/chunked/suffix-array builders x max_diff_block_size grid x in-memory / parsed / streaming patchers (buffer grid) plus an independent bspatch written from the format description: apply(old, build(old,new)) = new everywhere. Every control block of <=2 (thorough 3) triples with diff/extra 0..=3, seek -3..=3, data lengths needed-1/needed/needed+1, output_size 0..=8: Ok(out) implies out.len() = header.output_size, never a panic.",
+            "Every (old,new) in {a,b}^<=6 (thorough <=8) as single bytes, 4-byte blocks and 256-byte blocks x simple/chunked/suffix-array builders x max_diff_block_size grid x in-memory / parsed / streaming patchers (buffer grid) plus an independent bspatch written from the format description: apply(old, build(old,new)) = new everywhere. Every control block of <=2 (thorough 3) triples with diff/extra 0..=3, seek -3..=3, data lengths needed-1/needed/needed+1, output_size 0..=8: Ok(out) implies out.len() = header.output_size, never a panic; plus control blocks with one or two leading seeks of +-(2^63-1) before every triple (position saturation / overflow).",
             "Trusted: the independent bspatch (self-checked on hand-computed vectors; shares only the zlib inflater). Data comes from a 2-letter alphabet; real CDN patches are left to the repository's fixture tests.",
             "DESIGN.md §4 C16"),
     "C18": ("ENUM", "exploration",
@@ -58,7 +58,7 @@ CHECKS = {
             "DESIGN.md §4 C10"),
     "C13": ("NET", "model_checking",
             "exhaustive enumeration of endpoint-behaviour assignments x endpoint class x query script x TTL class x cache kind on the real RibbitTactClient over loopback mocks; every single cut position of valid TCP responses",
-            "The full product of 12 (thorough 13) HTTP behaviours for each TACT endpoint x 7 (8) Ribbit TCP behaviours for versions/qq/1h/disk, a reduced behaviour set across all endpoint classes, scripts (query twice; query, new client on the same cache directory, query), TTL {0, 1 h} and cache kinds, endpoint URLs present/empty, and every single cut position of every valid V1/V2 TCP response. Oracle: a reference decision function (good / transient / definitive / unclassified) over the request logs of the mocks: order HTTPS, HTTP, TCP; go on only after a transient failure; first good answer returned with the rows of the endpoint that answered; cached answers served without traffic until the TTL ends; failures never cached; parsed document independent of the cut.",
+            "The full product of 12 (thorough 13) HTTP behaviours for each TACT endpoint x 7 (8) Ribbit TCP behaviours for versions/qq/1h/disk, a reduced behaviour set across all endpoint classes, scripts (query twice; query, new client on the same cache directory, query), TTL {0, 1 h} and cache kinds, endpoint URLs present/empty, every single cut position of every valid V1/V2 TCP response (CRLF and LF-only), every pair of cuts (first anywhere, second at every later line end), TTL classes set alike or split (own class vs the others), and query scripts around the expiry of a 2 s TTL in real time (same client, new client adopting the stored answer at once / mid-TTL / after expiry; judged only where the measured times leave no doubt). Oracle: a reference decision function (good / transient / definitive / unclassified) over the request logs of the mocks: order HTTPS, HTTP, TCP; go on only after a transient failure; first good answer returned with the rows of the endpoint that answered; cached answers served without traffic until the TTL ends; failures never cached; parsed document independent of the cut.",
             "Trusted: loopback stands for the network; plain HTTP for the HTTPS endpoint; 200+malformed, accept-and-close and close-mid-body are not judged on stop-vs-continue. Stall behaviours (30 s client timeouts) run in the thorough tier only.",
             "DESIGN.md §4 C13"),
     "C01": ("ENUM", "exploration",
@@ -73,7 +73,7 @@ CHECKS = {
             "DESIGN.md §4 C05"),
     "C12": ("SEQ", "model_checking",
             "explicit-state exploration of all multi-layer operation/fault histories up to a depth bound, executed in killable worker processes, lock-step with a latest-value model",
-            "Every history up to depth 3/4 (quick) and 4/5 (thorough) over put / put_with_ttl / put_to_layer / get / get_from_layer / promote / remove / clear / contains / batch ops / validated put+get / corrupt or delete the disk layer's file, on [Memory(1), Disk] and [Memory(1), Memory(2), Disk] with three promotion strategies and MD5 hooks, runs on the real MultiLayerCacheImpl inside worker processes with a progress watchdog (a call that never returns is a violation, not a stuck run). Oracle: latest-value model across layers, nothing answers after remove/clear/detected corruption, validated reads return only bytes that hash to the key, every call returns.",
+            "Every history up to depth 3/4 (quick) and 4/5 (thorough) over put / put_with_ttl / put_to_layer / get / get_from_layer / promote / remove / clear / contains / batch ops / validated put+get / corrupt / delete the disk layer's file or break its header (the layer's read then fails instead of missing), on [Memory(1), Disk] and [Memory(1), Memory(2), Disk] with three promotion strategies and MD5 hooks, runs on the real MultiLayerCacheImpl inside worker processes with a progress watchdog (a call that never returns is a violation, not a stuck run). Oracle: latest-value model across layers, nothing answers after remove/clear/detected corruption, validated reads return only bytes that hash to the key, a batch read is not failed for a healthy key by another key's damaged file, every call returns.",
             "Trusted: the latest-value model with its six documented not-alarming decisions (DESIGN Appendix B), the watchdog's hang proof (same untimed futex wait for >=60 ms with a single thread, or 2.5 s without progress confirmed on a second run). Background cleanup tasks are pinned (ten-year intervals, paused clock) and not explored.",
             "DESIGN.md §4 C12"),
     "C19": ("SEQ+ENUM", "model_checking",
@@ -84,7 +84,7 @@ CHECKS = {
     "C07": ("ENUM+SEQ", "fault_enumeration",
             "exhaustive enumeration of single-bit flips, byte substitutions, deletions and insertions inside the protected region of small artifacts; explicit-state exploration of put/corrupt/get histories on the validating cache",
             "For encoding-table pages, the archive-index footer, an LRU checkpoint file, update-section entries/pages and a saved .idx with pending updates, a local entry header and a V1 Ribbit response with a checksum line: every single-bit flip, every byte substitution (all 255 values for small artifacts), every suffix deletion, 1-byte deletion and 1-byte insertion inside the protected region is applied; accept(mutant) implies that no logical item differs from the original's. Every history <= depth 4/5 over put_validated / mismatching put / get_validated / corrupt-backing-file / reopen on ContentAddressedCache<DiskCache>: a validating get returns bytes only if their MD5 equals the key.",
-            "Trusted: the location of the protected regions (self-checked: at least one mutant must be rejected per artifact) and the logical projections. Multi-bit corruption beyond one byte and artifacts larger than the fixtures are not covered.",
+            "Trusted: the location of the protected regions (self-checked: at least one mutant must be rejected per artifact) and the logical projections. Second level: every length-preserving single mutation that is accepted with the value unchanged (a byte the check does not notice) is combined with every bit flip and 0x00/0xFF substitution of the region — the pair that switches a check off and then alters the data. Other multi-byte corruption and artifacts larger than the fixtures are not covered.",
             "DESIGN.md §4 C07"),
     "C09": ("ENUM", "exploration",
             "bounded-exhaustive enumeration of lengths/splits/alignments/boundary parameters against independent reference implementations (self-checked on published vectors)",
@@ -104,7 +104,7 @@ CHECKS = {
     "C17": ("SEQ", "model_checking",
             "explicit-state exploration of all operation histories up to a depth bound on the real LruManager, lock-step with a textbook LRU model",
             "Every history of <=5 (quick) / <=6 (thorough) operations over touch/remove/evict_tail/evict_to_target/bump_generation/checkpoint/load/run_cycle/reset/shutdown x 4 keys (one all-zero) x capacities 0..3 is executed on the real LruManager and compared after every step with a VecDeque LRU (contents, order, len, contains, return values). Exhaustive within the bound; the first counterexample is the shortest.",
-            "Trusted: the 60-line VecDeque reference model and the generation->snapshot map that follows the documented checkpoint protocol. Histories longer than the bound and more than 2 (quick) disk operations per history are not covered.",
+            "Trusted: the 60-line VecDeque reference model and the generation->snapshot map that follows the documented checkpoint protocol. In addition every history of <=3 (quick) / <=5 (thorough) operations from two checkpointed pre-states ([touch,touch,checkpoint] and [touch x3,checkpoint,bump]) at capacities 2 and 3. Quick: histories of depth 5 carry at most one disk operation (two up to depth 4 and from the pre-states). Histories longer than the bounds are not covered.",
             "DESIGN.md §4 C17"),
 }
 
